@@ -1157,7 +1157,7 @@ out:
 static pid_t
 run_task(_task_t t)
 {
-/* assumes ev_loop_fork() has been called */
+/* the child is spawned, not forked, it has nothing to do with our loop */
 	static char *args[] = {
 		"echsx",
 		/* we want a vjournal log, defo defo */
@@ -2335,9 +2335,6 @@ task_cb(EV_P_ ev_periodic *w, int UNUSED(revents))
 	if (t->t->max_simul >= 077U ||
 	    t->nsim < (unsigned int)t->t->max_simul) {
 		pid_t p;
-
-		/* indicate that we might want to reuse the loop */
-		ev_loop_fork(EV_A);
 
 		if (LIKELY((p = run_task(t)) > 0)) {
 			ev_child *c = make_chld();
